@@ -10,6 +10,7 @@
    Payload values are N (globally unique tags in the check); a container is `list (list N)`: one block per local index
    (SizeOne: every block has exactly one value; VariableSize: CommPolicy::getSize = length of the block). *)
 From Coq Require Import List Arith Bool PeanoNat NArith.
+From DuneV Require Import Params_gen.
 Import ListNotations.
 
 (* ------------------------------------------------------------------ enumset.hh *)
@@ -361,3 +362,60 @@ Definition c05_dt_phase (fwd : bool) (types : list c05_dtypes) (gdata sdata : li
                 (fun p => c05_dt_pack (nth p gdata []) (c05_dt_sendtype fwd (c05_dt_find q (nth p types []))))
                 (nth q orders []) (nth q sdata []))
       (seq 0 (length types)).
+
+(* ------------------------------------------------------------------ message tags (constants re-read from communicator.hh)
+   MPI matches a posted receive (source, tag) with a send (sender, tag) on one communicator.  BufferedCommunicator uses
+   commTag_ = c05_param_buffered_tag for all its messages, DatatypeCommunicator commTag_ = c05_param_datatype_tag. *)
+Definition c05_recv_matches (recv_source recv_tag sender send_tag : nat) : bool := (recv_source =? sender) && (recv_tag =? send_tag).
+
+(* ------------------------------------------------------------------ DatatypeCommunicator::createRequests, literally
+   createRequests<V,createForward>(sendData, receiveData): for every process first MPI_Recv_init(address of receiveData,
+   type = createForward ? .second : .first), then MPI_Ssend_init(address of sendData, type = createForward ? .first : .second),
+   stored in requests_[createForward ? slot_created_forward : slot_created_backward].
+   build(): createRequests<V,true>(sendData, receiveData); createRequests<V,false>(receiveData, sendData);
+   forward(): sendRecv(requests_[slot_used_by_forward]); backward(): sendRecv(requests_[slot_used_by_backward]). *)
+Inductive c05_cont := C05_SendData | C05_ReceiveData.                 (* the two containers given to build() *)
+Record c05_req := { c05_rq_proc : nat; c05_rq_cont : c05_cont; c05_rq_type : c05_dtype }.
+Definition c05_dt_create_requests (createForward : bool) (types : c05_dtypes) (sendArg recvArg : c05_cont)
+  : list c05_req * list c05_req :=
+  (map (fun e => {| c05_rq_proc := fst e; c05_rq_cont := recvArg; c05_rq_type := if createForward then snd (snd e) else fst (snd e) |}) types,
+   map (fun e => {| c05_rq_proc := fst e; c05_rq_cont := sendArg; c05_rq_type := if createForward then fst (snd e) else snd (snd e) |}) types).
+Definition c05_dt_slot (createForward : bool) : nat :=
+  if createForward then c05_param_dt_slot_created_forward else c05_param_dt_slot_created_backward.
+(* requests_ after build(): slot -> (receive requests, send requests) *)
+Definition c05_dt_requests (types : c05_dtypes) (slot : nat) : list c05_req * list c05_req :=
+  if slot =? c05_dt_slot false                                            (* written last *)
+  then c05_dt_create_requests false types C05_ReceiveData C05_SendData
+  else if slot =? c05_dt_slot true
+       then c05_dt_create_requests true types C05_SendData C05_ReceiveData
+       else ([], []).
+Definition c05_dt_forward_requests (types : c05_dtypes) := c05_dt_requests types c05_param_dt_slot_used_by_forward.
+Definition c05_dt_backward_requests (types : c05_dtypes) := c05_dt_requests types c05_param_dt_slot_used_by_backward.
+
+(* ------------------------------------------------------------------ the objects and their operation histories *)
+(* Interface: interfaces_ ; None = assert(interfaces_.empty()) of build() failed *)
+Inductive c05_iop := C05_IBuild (src dst : c05_flagset) (rm : c05_rmap) | C05_IFree | C05_IStrip.
+Definition c05_iobj_step (st : option c05_imap) (op : c05_iop) : option c05_imap :=
+  match st with
+  | None => None
+  | Some m => match op with
+              | C05_IBuild src dst rm => if c05_is_nil m then c05_interface_build src dst rm else None
+              | C05_IFree => Some []
+              | C05_IStrip => Some (c05_strip m)
+              end
+  end.
+Definition c05_iobj_run (ops : list c05_iop) : option c05_imap := fold_left c05_iobj_step ops (Some []).
+
+(* BufferedCommunicator: (interfaces_, messageInformation_, bufferSize_[0], bufferSize_[1]);
+   build() = free() first iff the source says so (c05_param_build_frees_first; F-C05-1 was its absence);
+   free() clears messageInformation_ and the buffers; forward()/backward() do not modify the object *)
+Inductive c05_bop := C05_BBuild (szs szd : nat -> nat) (ifs : c05_imap) | C05_BFree | C05_BCommunicate.
+Definition c05_bobj_step (cm : c05_comm) (op : c05_bop) : c05_comm :=
+  match op with
+  | C05_BBuild szs szd ifs => if c05_param_build_frees_first then c05_comm_build szs szd ifs
+                              else c05_comm_build_over (c05_cm_info cm) szs szd ifs
+  | C05_BFree => {| c05_cm_ifs := c05_cm_ifs cm; c05_cm_info := []; c05_cm_b0 := c05_cm_b0 cm; c05_cm_b1 := c05_cm_b1 cm |}
+  | C05_BCommunicate => cm
+  end.
+Definition c05_bobj_init : c05_comm := {| c05_cm_ifs := []; c05_cm_info := []; c05_cm_b0 := 0; c05_cm_b1 := 0 |}.
+Definition c05_bobj_run (ops : list c05_bop) : c05_comm := fold_left c05_bobj_step ops c05_bobj_init.
